@@ -29,13 +29,16 @@ class Server:
         self.chunk_bytes = chunk_bytes
         self.chunk_cases = chunk_cases
         self.restarts = 0
+        self.case_timeout = int(os.environ.get("NMV_CASE_TIMEOUT", "240"))
+        self._buf = b""
 
     def start(self):
         os.makedirs(TMP, exist_ok=True)
         self.errf = tempfile.TemporaryFile(dir=TMP)
         self.proc = subprocess.Popen([self.path], stdin=subprocess.PIPE, stdout=subprocess.PIPE,
                                      stderr=self.errf, env=self.env, bufsize=0, preexec_fn=_unlimit_as)
-        self.rd = os.fdopen(os.dup(self.proc.stdout.fileno()), "rb", buffering=1 << 16)
+        self.rd = os.fdopen(os.dup(self.proc.stdout.fileno()), "rb", buffering=0)
+        self._buf = b""
 
     def close(self):
         if self.proc is not None:
@@ -108,8 +111,20 @@ class Server:
                 pass
             got = 0
             crashed = False
+            timed_out = False
             while got < j - i:
-                line = self.rd.readline()
+                line = self._readline(self.case_timeout)
+                if line is None:
+                    # no answer within the per-case time limit: kill the server, report the case as timed out
+                    try:
+                        self.proc.kill()
+                    except Exception:
+                        pass
+                    self._crash_info()
+                    out.append({"timeout": True, "error": "no answer within %ds (server killed)" % self.case_timeout})
+                    got += 1
+                    timed_out = True
+                    break
                 if not line:
                     crashed = True
                     break
@@ -118,12 +133,39 @@ class Server:
                 except Exception:
                     out.append({"error": "unparsable server output", "raw": line[:200].decode("utf-8", "replace")})
                 got += 1
-            if crashed:
+            if timed_out:
+                i = i + got
+            elif crashed:
                 out.append({"crash": self._crash_info()})
                 i = i + got + 1
             else:
                 i = j
         return out
+
+    def _readline(self, timeout):
+        """one line from the server, b'' on EOF, None on timeout"""
+        import select
+        import time as _t
+        if b"\n" in self._buf:
+            line, self._buf = self._buf.split(b"\n", 1)
+            return line + b"\n"
+        deadline = _t.time() + timeout
+        fd = self.rd.fileno()
+        while True:
+            left = deadline - _t.time()
+            if left <= 0:
+                return None
+            r, _, _ = select.select([fd], [], [], min(left, 5.0))
+            if not r:
+                continue
+            chunk = os.read(fd, 1 << 16)
+            if not chunk:
+                self._buf = b""
+                return b""  # EOF; a partial last line belongs to the crashing case and is dropped
+            self._buf += chunk
+            if b"\n" in self._buf:
+                line, self._buf = self._buf.split(b"\n", 1)
+                return line + b"\n"
 
     def _write_big(self, data):
         import threading
